@@ -1,0 +1,13 @@
+//go:build verif
+
+package taskqueue
+
+import "time"
+
+// VerifSetTickerChan replaces the channel of the thaw ticker, so that a harness decides when a
+// tick is delivered to a waiting worker. Call it before Startup. Add-only observation/clock hook
+// for the verification harness; not compiled without the build tag "verif".
+func (tq *WorkerTaskQueue) VerifSetTickerChan(c <-chan time.Time) {
+	tq.ticker.Stop()
+	tq.ticker = &time.Ticker{C: c}
+}
